@@ -135,7 +135,7 @@ impl Scen {
         Scen {
             mem: x.nth(0).list().iter().map(|v| v.int().clamp(0, 4) as u8).collect(),
             chg: x.nth(1).list().iter().map(|v| v.int() != 0).collect(),
-            ops: x.nth(2).list().iter().map(|o| (o.nth(0).int().clamp(0, 4) as u8, o.nth(1).int().max(0) as usize, o.nth(2).int().clamp(0, 9) as u8)).collect(),
+            ops: x.nth(2).list().iter().map(|o| (o.nth(0).int().clamp(0, 6) as u8, o.nth(1).int().max(0) as usize, o.nth(2).int().clamp(0, 9) as u8)).collect(),
         }
     }
     fn to_sx_free(&self) -> Sx {
@@ -169,7 +169,7 @@ impl Scen {
             && self.mem.len() <= 6
             && !self.ops.is_empty()
             && self.ops.len() <= 4
-            && self.ops.iter().all(|(k, i, _)| *k <= 1 || *i < self.mem.len())
+            && self.ops.iter().all(|(k, i, _)| *k <= 1 || *k == 6 || *i < self.mem.len())
             && (0..self.mem.len()).all(|i| !self.chg[i] || standoff(self.mem[i]))
     }
 }
@@ -510,6 +510,35 @@ fn digest_annotations(store: &AnnotationStore) -> String {
     s
 }
 
+fn store_op(store: &AnnotationStore) -> Got {
+    match store.to_json_string(store.config()) {
+        Ok(text) => store_tokens(text),
+        Err(e) => Got { tokens: vec![-2], text: format!("{:?}", e) },
+    }
+}
+
+fn store_tokens(text: String) -> Got {
+    match Ok::<String, StamError>(text) {
+        Ok(text) => match serde_json::from_str::<serde_json::Value>(&text) {
+            Ok(v) => {
+                let mut tokens = Vec::new();
+                let mut idx = 0usize;
+                for field in ["resources", "annotationsets"] {
+                    if let Some(arr) = v.get(field).and_then(|x| x.as_array()) {
+                        for m in arr {
+                            tokens.push(form_of(m, idx));
+                            idx += 1;
+                        }
+                    }
+                }
+                Got { tokens, text }
+            }
+            Err(_) => Got { tokens: vec![-5], text },
+        },
+        Err(e) => Got { tokens: vec![-2], text: format!("{:?}", e) },
+    }
+}
+
 /// the call a thread makes with its shared reference
 fn run_op(store: &AnnotationStore, sc: &Scen, op: (u8, usize, u8)) -> Got {
     let (kind, i, variant) = op;
@@ -585,25 +614,33 @@ fn run_op(store: &AnnotationStore, sc: &Scen, op: (u8, usize, u8)) -> Got {
             };
             Got { tokens: vec![], text }
         }
-        1 => match store.to_json_string(store.config()) {
-            Ok(text) => match serde_json::from_str::<serde_json::Value>(&text) {
-                Ok(v) => {
-                    let mut tokens = Vec::new();
-                    let mut idx = 0usize;
-                    for field in ["resources", "annotationsets"] {
-                        if let Some(arr) = v.get(field).and_then(|x| x.as_array()) {
-                            for m in arr {
-                                tokens.push(form_of(m, idx));
-                                idx += 1;
-                            }
-                        }
-                    }
-                    Got { tokens, text }
-                }
-                Err(_) => Got { tokens: vec![-5], text },
-            },
-            Err(e) => Got { tokens: vec![-2], text: format!("{:?}", e) },
-        },
+        1 => store_op(store),
+        6 => {
+            // the store written to a file of this thread's own (ToJson::to_json_file), read back
+            let name = format!("out-{:?}.json", std::thread::current().id()).replace(['(', ')'], "");
+            let path = match store.config().workdir() {
+                Some(w) => w.join(&name),
+                None => std::path::PathBuf::from(&name),
+            };
+            let r = store.to_json_file(&name, store.config());
+            let got = match r {
+                Ok(()) => match std::fs::read_to_string(&path) {
+                    Ok(text) => store_tokens(text),
+                    Err(e) => Got { tokens: vec![-2], text: format!("{:?}", e) },
+                },
+                Err(e) => Got { tokens: vec![-2], text: format!("{:?}", e) },
+            };
+            let _ = std::fs::remove_file(&path);
+            got
+        }
+        5 => {
+            // two calls one after the other on this thread
+            let first = run_op(store, sc, (2, i, variant));
+            let second = store_op(store);
+            let mut tokens = first.tokens.clone();
+            tokens.extend(second.tokens.iter());
+            Got { tokens, text: format!("{}\n----\n{}", first.text, second.text) }
+        }
         _ => {
             let id = member_id(i);
             if is_resource(sc.mem[i]) {
@@ -735,7 +772,7 @@ pub fn generate(out: &mut Out, tier: &str, seed: u64) {
             one.push((vec![k], vec![true]));
         }
     }
-    let cap: u64 = if thorough { 60_000 } else { 4_000 };
+    let cap: u64 = 4_000;
     for (mem, chg) in &one {
         let pool = op_pool(mem, &[0, 1, 2, 3]);
         for x in 0..pool.len() {
@@ -753,6 +790,29 @@ pub fn generate(out: &mut Out, tier: &str, seed: u64) {
             }
         }
     }
+    // A3. two calls one after the other on one thread (member, then store), next to every call:
+    //    all schedules up to a cap, random schedules beyond
+    for (mem, chg) in &one {
+        let pool = op_pool(mem, &[0]);
+        let mut partners = pool.clone();
+        partners.push((5, 0, 0));
+        partners.push((6, 0, 0));
+        for first in [(5u8, 0usize, 0u8), (6, 0, 0)] {
+            for y in &partners {
+                if first.0 == 6 && y.0 == 5 {
+                    continue;
+                }
+                let sc = Scen { mem: mem.clone(), chg: chg.clone(), ops: vec![first, *y] };
+                out.count_n("scenarios_two_threads", 1);
+                let e = explore(&ctx, out, &sc, if thorough { 1_500 } else { 150 }, "two_threads_all_schedules");
+                if !e.complete {
+                    out.count_n("scenarios_capped", 1);
+                    sample(&ctx, out, &sc, &mut rng, if thorough { 100 } else { 40 }, "two_threads_random_schedule");
+                }
+            }
+        }
+    }
+
     // A2. one resource and one dataset, every combination of flags.
     //    quick: all schedules for {store, ToJson(dataset)} x {store, ToJson(dataset)} when they are
     //    at most 800, random schedules otherwise; thorough: all schedules up to the cap
@@ -770,14 +830,14 @@ pub fn generate(out: &mut Out, tier: &str, seed: u64) {
                         let sc = Scen { mem: mem.clone(), chg: chg.clone(), ops: vec![pool[x], pool[y]] };
                         out.count_n("scenarios_two_threads", 1);
                         let core = |o: (u8, usize, u8)| o.0 == 1 || (o.0 == 2 && o.1 == 1);
-                        if thorough || (core(pool[x]) && core(pool[y])) {
-                            let e = explore(&ctx, out, &sc, if thorough { cap } else { 800 }, "two_threads_all_schedules");
+                        if core(pool[x]) && core(pool[y]) {
+                            let e = explore(&ctx, out, &sc, if thorough { 4_000 } else { 800 }, "two_threads_all_schedules");
                             if !e.complete {
                                 out.count_n("scenarios_capped", 1);
                                 sample(&ctx, out, &sc, &mut rng, 100, "two_threads_random_schedule");
                             }
                         } else {
-                            sample(&ctx, out, &sc, &mut rng, 10, "two_threads_random_schedule");
+                            sample(&ctx, out, &sc, &mut rng, if thorough { 100 } else { 10 }, "two_threads_random_schedule");
                         }
                     }
                 }
@@ -796,7 +856,7 @@ pub fn generate(out: &mut Out, tier: &str, seed: u64) {
                     let sc = Scen { mem: mem.clone(), chg: chg.clone(), ops: vec![pool[x], pool[y], pool[z]] };
                     out.count_n("scenarios_three_threads", 1);
                     if thorough {
-                        let e = explore(&ctx, out, &sc, 20_000, "three_threads_all_schedules");
+                        let e = explore(&ctx, out, &sc, 1_000, "three_threads_all_schedules");
                         if !e.complete {
                             out.count_n("scenarios_three_capped", 1);
                             sample(&ctx, out, &sc, &mut rng, 300, "three_threads_random_schedule");
@@ -810,7 +870,7 @@ pub fn generate(out: &mut Out, tier: &str, seed: u64) {
     }
 
     // C. larger stores, random calls, random schedules
-    let nrand = if thorough { 3000 } else { 300 };
+    let nrand = if thorough { 2000 } else { 300 };
     for _ in 0..nrand {
         let nres = rng.below(3);
         let nset = rng.below(3);
@@ -827,9 +887,9 @@ pub fn generate(out: &mut Out, tier: &str, seed: u64) {
         let chg: Vec<bool> = mem.iter().map(|k| standoff(*k) && rng.chance(1, 2)).collect();
         let pool = op_pool(&mem, &[0, 1, 2, 3]);
         let nthreads = 2 + rng.below(2);
-        let ops: Vec<(u8, usize, u8)> = (0..nthreads).map(|_| *rng.pick(&pool)).collect();
+        let ops: Vec<(u8, usize, u8)> = (0..nthreads).map(|_| if rng.chance(1, 6) { (5, rng.below(mem.len()), 0) } else if rng.chance(1, 6) { (6, 0, 0) } else { *rng.pick(&pool) }).collect();
         let sc = Scen { mem, chg, ops };
-        sample(&ctx, out, &sc, &mut rng, if thorough { 30 } else { 12 }, "larger_store_random_schedule");
+        sample(&ctx, out, &sc, &mut rng, if thorough { 25 } else { 12 }, "larger_store_random_schedule");
         out.count_n("scenarios_random", 1);
     }
     // D. free runs: the same calls on threads started together without the scheduler, so that the
@@ -845,7 +905,7 @@ pub fn generate(out: &mut Out, tier: &str, seed: u64) {
         let chg: Vec<bool> = mem.iter().map(|k| standoff(*k) && rng.chance(2, 3)).collect();
         let pool = op_pool(&mem, &[0, 1, 2, 3]);
         let nthreads = 2 + rng.below(3);
-        let ops: Vec<(u8, usize, u8)> = (0..nthreads).map(|_| if rng.chance(1, 2) { (1, 0, 0) } else { *rng.pick(&pool) }).collect();
+        let ops: Vec<(u8, usize, u8)> = (0..nthreads).map(|_| if rng.chance(1, 2) { (1, 0, 0) } else if rng.chance(1, 5) { (5, rng.below(mem.len()), 0) } else { *rng.pick(&pool) }).collect();
         let sc = Scen { mem, chg, ops };
         let req = sc.to_sx_free();
         let (i, o, nt) = ctx.exec(&req);
@@ -860,6 +920,6 @@ pub fn generate(out: &mut Out, tier: &str, seed: u64) {
     }
 }
 
-pub const RULE: &str = "Deterministic scheduler over real threads holding &AnnotationStore (blocked at the stam_verif yield points before every access to the serialisation mode and the changed flags; one thread runs at a time); every execution rebuilds the store and its stand-off files under .cache/work/c20/. A (exhaustive, both tiers): for every store with one member (inline / plain-text stand-off / .json stand-off resource, inline / stand-off dataset; changed flag clear and set: 8 stores) every unordered pair of calls out of {store.to_json_string, ToJson::to_json_string(member, store config), inherent member.to_json_string(), ToJson::to_json_string(member, unrelated Config), pure readers: annotation iteration, find_text + reverse lookups, query, .parallel() through rayon}: ALL schedules, enumerated depth-first by re-execution (the generator fails if a pair exceeds the cap). A2: stores with one resource and one dataset (5 kind combinations x all flag combinations): quick = all schedules (up to 800, else + 100 random) for pairs of {store serialisation, ToJson(dataset)}, 10 random schedules for the other pairs; thorough = all schedules up to 60000 per pair. B: three threads on one-member stores: 30 random schedules per triple (quick), all schedules up to 20000 (thorough). C: random stores of up to 2+2 members with 2-3 random calls under random schedules. D: free runs - 2-4 threads started together WITHOUT the scheduler (real pre-emption) on stores of 1-5 members. Per thread: the member forms in the string it obtained and equality of the whole string with the string the same call returns alone on an identical store, compared with the specified solo result and with the model's prediction for the executed schedule; per run: whether every stand-off file still holds its member's content. Non-trivial: a stand-off member exists and at least two threads were scheduled twice or more. distinct = distinct (scenario, schedule) lines.";
+pub const RULE: &str = "Deterministic scheduler over real threads holding &AnnotationStore (blocked at the stam_verif yield points before every access to the serialisation mode and the changed flags; one thread runs at a time); every execution rebuilds the store and its stand-off files under .cache/work/c20/. A (exhaustive, both tiers): for every store with one member (inline / plain-text stand-off / .json stand-off resource, inline / stand-off dataset; changed flag clear and set: 8 stores) every unordered pair of calls out of {store.to_json_string, ToJson::to_json_string(member, store config), inherent member.to_json_string(), ToJson::to_json_string(member, unrelated Config), pure readers: annotation iteration, find_text + reverse lookups, query, .parallel() through rayon}: ALL schedules, enumerated depth-first by re-execution (the generator fails if a pair exceeds the cap). A3: two calls on one thread (ToJson::to_json_string(member) followed by store.to_json_string), and store.to_json_file into a file of the thread's own (read back), each next to every other call on the one-member stores: all schedules up to 150 (thorough 1500), 40 (100) random ones beyond. A2: stores with one resource and one dataset (5 kind combinations x all flag combinations): all schedules up to 800 (thorough 4000), 100 random ones beyond, for pairs of {store serialisation, ToJson(dataset)}; 10 (thorough 100) random schedules for the other pairs. B: three threads on one-member stores: 30 random schedules per triple (quick), all schedules up to 1000 + 300 random beyond (thorough). C: random stores of up to 2+2 members with 2-3 random calls under random schedules. D: free runs - 2-4 threads started together WITHOUT the scheduler (real pre-emption) on stores of 1-5 members. Per thread: the member forms in the string it obtained and equality of the whole string with the string the same call returns alone on an identical store, compared with the specified solo result and with the model's prediction for the executed schedule; per run: whether every stand-off file still holds its member's content. Non-trivial: a stand-off member exists and at least two threads were scheduled twice or more. distinct = distinct (scenario, schedule) lines.";
 
 pub const EXHAUSTIVE: bool = true;
